@@ -253,6 +253,18 @@ func buildC18(c *C18Case) error {
 			if err != nil {
 				return err
 			}
+		case "dangling", "dangling-dir":
+			// the factory path is a symbolic link whose target does not exist (any more): into an existing directory of the
+			// user's tree, or into a directory that is gone as well
+			target, _ := filepath.Abs(l.User)
+			if l.Kind == "dangling-dir" {
+				target, _ = filepath.Abs("hidi-config/user/removed-dir/old.toml")
+			}
+			_ = os.Remove(l.User)
+			_ = os.Remove(l.Factory)
+			if err := os.Symlink(target, l.Factory); err != nil {
+				return err
+			}
 		case "sym":
 			if err := os.WriteFile(l.User, l.Data, 0o666); err != nil {
 				return err
@@ -519,7 +531,7 @@ func genC18(t *rapid.T) C18Case {
 	}
 	if c.CrashKind == "" && rapid.IntRange(0, 7).Draw(t, "linked") == 0 {
 		f := files[rapid.IntRange(0, len(files)-1).Draw(t, "linkedFactory")]
-		c.Links = append(c.Links, c18Link{Kind: rapid.SampledFrom([]string{"hard", "hard", "sym"}).Draw(t, "linkKind"), Factory: f.Path,
+		c.Links = append(c.Links, c18Link{Kind: rapid.SampledFrom([]string{"hard", "hard", "sym", "dangling", "dangling-dir"}).Draw(t, "linkKind"), Factory: f.Path,
 			User: "hidi-config/user/keyboard/my_copy.toml", Data: append([]byte("# my own version\n"), genBytes(t, "linkedData")...)})
 	}
 	if rapid.IntRange(0, 3).Draw(t, "hasHidi") > 0 {
